@@ -300,6 +300,13 @@ func (l *LedgerApi) GetFrontierMomentum() (*Momentum, error) {
 	return ledgerMomentumToRpc(momentum)
 }
 func (l *LedgerApi) GetMomentumBeforeTime(timestamp int64) (*Momentum, error) {
+	// the store compares UnixNano values, which exist only for |seconds| <= MaxInt64/1e9 (years 1678..2262)
+	const maxNanoSec = int64(^uint64(0)>>1) / int64(time.Second)
+	if timestamp > maxNanoSec {
+		timestamp = maxNanoSec
+	} else if timestamp < -maxNanoSec {
+		timestamp = -maxNanoSec
+	}
 	currentTime := time.Unix(timestamp, 0)
 	momentum, err := l.chain.GetFrontierMomentumStore().GetMomentumBeforeTime(&currentTime)
 	if err != nil || momentum == nil {
